@@ -217,16 +217,24 @@ class OffsetOperandStub:
         self.unsigned = unsigned
 
 
+    def states_intent(self, token):
+        # Grouping of any style ('(...)', '<...>', '^/.../') or an explicit 'label:'
+        # tells whether numbers are meant to be numbers or local labels
+        if isinstance(token, (ParenthesizedExpression, operators.call)):
+            return True
+        if isinstance(token, operators.InfixOperator):
+            return self.states_intent(token.lhs) or self.states_intent(token.rhs)
+        if isinstance(token, (operators.PrefixOperator, operators.PostfixOperator)):
+            return self.states_intent(token.operand)
+        return isinstance(token, Symbol) and token.is_necessarily_label
+
+
     def encode(self, operand, state):
         insn = state["insn"]
 
         if isinstance(operand, Number) and operand.is_valid_label:
             operand = Symbol(operand.ctx_start, operand.ctx_end, operand.representation, is_necessarily_label=True)
-        elif "(" not in operand.text() and ":" not in operand.text():
-            # TODO: the condition of this if being '"(" not in operand.text()'
-            # may not work for multiline expressions, e.g.
-            #   clr @#1 +  ; comment here (abacaba)
-            #   b
+        elif not self.states_intent(operand):
             fixup_active = True
             def fixup_label(token):
                 nonlocal fixup_active
